@@ -461,14 +461,20 @@ def real_run(cfg, plan=(), seed=0, k=1, lr=0.05, numeric_hook=None, time_flag=Fa
     data_rows = [row_bits(c, nv) for c in cfg["data"]]
     if container == "tensor":
         data = torch.tensor(data_rows, dtype=torch.double)
+    elif container == "tensor_strided":                       # column-major storage: same values, other strides
+        data = torch.tensor(data_rows, dtype=torch.double).t().contiguous().t()
     elif container == "numpy":
         data = np.array(data_rows, dtype=float)
+    elif container == "numpy_fortran":
+        data = np.asfortranarray(np.array(data_rows, dtype=float))
     else:
         data = [list(map(float, r)) for r in data_rows]
     data_before = repr(data_rows)
     bases = None
     if cfg.get("bases"):
         bases = np.array([basis_str(c, nv) for c in cfg["bases"]])
+        if container in ("numpy_fortran", "tensor_strided"):
+            bases = np.asfortranarray(bases)
         bases_before = bases.copy()
     own_tmp = None
     if tmpdir is None:
@@ -551,9 +557,7 @@ def real_run(cfg, plan=(), seed=0, k=1, lr=0.05, numeric_hook=None, time_flag=Fa
                 cbstate.append([] if o.last_epoch is None else [int(o.last_epoch)])
             else:
                 cbstate.append([])
-        if container == "tensor":
-            same = data.tolist() == [list(map(float, r)) for r in data_rows]
-        elif container == "numpy":
+        if container in ("tensor", "tensor_strided", "numpy", "numpy_fortran"):
             same = data.tolist() == [list(map(float, r)) for r in data_rows]
         else:
             same = data == [list(map(float, r)) for r in data_rows]
